@@ -6,6 +6,7 @@ import (
 	"go/token"
 	"go/types"
 	"sort"
+	"strconv"
 	"strings"
 
 	"golang.org/x/tools/go/ssa"
@@ -517,11 +518,11 @@ func (c *Ctx) aCall(fn *ssa.Function, args []aVal, env *aEnv, depth int, sums ma
 			case *ssa.Call:
 				fr.vals[x] = fr.call(x, sums)
 			case *ssa.Lookup:
-				fr.vals[x] = aSym(fmt.Sprintf("%s[%s]", aShow(fr.get(x.X)), aShow(fr.get(x.Index))))
+				fr.vals[x] = aSym(indexSym(aShow(fr.get(x.X)), aShow(fr.get(x.Index))))
 			case *ssa.Index:
-				fr.vals[x] = aSym(fmt.Sprintf("%s[%s]", aShow(fr.get(x.X)), aShow(fr.get(x.Index))))
+				fr.vals[x] = aSym(indexSym(aShow(fr.get(x.X)), aShow(fr.get(x.Index))))
 			case *ssa.IndexAddr:
-				fr.vals[x] = aSym(fmt.Sprintf("&%s[%s]", aShow(fr.get(x.X)), aShow(fr.get(x.Index))))
+				fr.vals[x] = aSym("&" + indexSym(aShow(fr.get(x.X)), aShow(fr.get(x.Index))))
 			case *ssa.Slice:
 				lo, hi := "", ""
 				if x.Low != nil {
@@ -530,7 +531,7 @@ func (c *Ctx) aCall(fn *ssa.Function, args []aVal, env *aEnv, depth int, sums ma
 				if x.High != nil {
 					hi = aShow(fr.get(x.High))
 				}
-				fr.vals[x] = aSym(fmt.Sprintf("%s[%s:%s]", aShow(fr.get(x.X)), lo, hi))
+				fr.vals[x] = aSym(sliceSym(aShow(fr.get(x.X)), lo, hi))
 			case *ssa.TypeAssert:
 				fr.vals[x] = fr.get(x.X)
 			case *ssa.If:
@@ -611,6 +612,34 @@ func (fr *aFrame) call(x *ssa.Call, sums map[string]aSummary) aVal {
 	}
 	callee := x.Call.StaticCallee()
 	if callee != nil {
+		// library functions defined in terms of the predicates the
+		// specifications speak about
+		switch callee.String() {
+		case "strings.CutPrefix", "bytes.CutPrefix":
+			if len(args) == 2 {
+				pkg := strings.SplitN(callee.String(), ".", 2)[0]
+				if bool(env.atom(fmt.Sprintf("%s.HasPrefix(%s,%s)", pkg, aShow(args[0]), aShow(args[1])))) {
+					return aTuple{aSym(sliceSym(aShow(args[0]), lenSym(aShow(args[1])), "")), aBool(true)}
+				}
+				return aTuple{args[0], aBool(false)}
+			}
+		case "strings.CutSuffix", "bytes.CutSuffix":
+			if len(args) == 2 {
+				pkg := strings.SplitN(callee.String(), ".", 2)[0]
+				if bool(env.atom(fmt.Sprintf("%s.HasSuffix(%s,%s)", pkg, aShow(args[0]), aShow(args[1])))) {
+					return aTuple{aSym(sliceSym(aShow(args[0]), "", "(len("+aShow(args[0])+") - "+lenSym(aShow(args[1]))+")")), aBool(true)}
+				}
+				return aTuple{args[0], aBool(false)}
+			}
+		case "strings.TrimPrefix", "bytes.TrimPrefix":
+			if len(args) == 2 {
+				pkg := strings.SplitN(callee.String(), ".", 2)[0]
+				if bool(env.atom(fmt.Sprintf("%s.HasPrefix(%s,%s)", pkg, aShow(args[0]), aShow(args[1])))) {
+					return aSym(sliceSym(aShow(args[0]), lenSym(aShow(args[1])), ""))
+				}
+				return args[0]
+			}
+		}
 		if s, ok := sums[callee.String()]; ok {
 			if v, ok := s(fr, args); ok {
 				return v
@@ -669,4 +698,71 @@ func rowsUndecided(rows []aRow) []string {
 		out = append(out, r.Undec...)
 	}
 	return uniq(out)
+}
+
+// lenSym renders len(x), folding the length of a string constant.
+func lenSym(x string) string {
+	if strings.HasPrefix(x, "\"") {
+		if u, err := strconv.Unquote(x); err == nil {
+			return strconv.Itoa(len(u))
+		}
+	}
+	return "len(" + x + ")"
+}
+
+// splitTailSlice recognises the rendering of `X[a:]` and returns X and a.
+func splitTailSlice(base string) (string, string, bool) {
+	if !strings.HasSuffix(base, ":]") {
+		return "", "", false
+	}
+	depth := 0
+	for i := len(base) - 1; i >= 0; i-- {
+		switch base[i] {
+		case ']':
+			depth++
+		case '[':
+			depth--
+			if depth == 0 {
+				lo := base[i+1 : len(base)-2]
+				if lo == "" || i == 0 {
+					return "", "", false
+				}
+				return base[:i], lo, true
+			}
+		}
+	}
+	return "", "", false
+}
+
+func addSym(a, b string) string {
+	if b == "0" {
+		return a
+	}
+	if a == "0" {
+		return b
+	}
+	return "(" + a + " + " + b + ")"
+}
+
+// sliceSym renders base[lo:hi]; a slice of a tail slice is folded:
+// X[a:][b:] = X[(a + b):].
+func sliceSym(base, lo, hi string) string {
+	if hi == "" && lo != "" {
+		if x, a, ok := splitTailSlice(base); ok {
+			return fmt.Sprintf("%s[%s:]", x, addSym(a, lo))
+		}
+	}
+	if hi == "" && (lo == "" || lo == "0") {
+		return base
+	}
+	return fmt.Sprintf("%s[%s:%s]", base, lo, hi)
+}
+
+// indexSym renders base[i]; an index into a tail slice is folded:
+// X[a:][i] = X[(a + i)].
+func indexSym(base, idx string) string {
+	if x, a, ok := splitTailSlice(base); ok {
+		return fmt.Sprintf("%s[%s]", x, addSym(a, idx))
+	}
+	return fmt.Sprintf("%s[%s]", base, idx)
 }
